@@ -16,8 +16,8 @@
    the rule that decides which per-type names get the module prefix (Fix/NameClash.v,
    mirrors asn1f_check_duplicate / asn1c_make_identifier; theorems C12_clash_* below, tied
    to the C by the file names generated under every permutation of the file list). *)
-From Coq Require Import List Bool Permutation Ascii.
-From A1 Require Import Fix.Printer Fix.PrinterProofs Fix.LexValues Fix.NameClash Fix.NameClashProofs.
+From Coq Require Import List Bool Permutation Ascii ZArith.
+From A1 Require Import Fix.Printer Fix.PrinterProofs Fix.LexValues Fix.NameClash Fix.NameClashProofs Fix.Pullup Fix.PullupProofs.
 Import ListNotations.
 
 (* the reference parser inverts the printer on every well-formed module of the algebra
@@ -125,3 +125,45 @@ Theorem C12_clash_example :
   cnames_c ex_ba = Some ["ModB_Info"; "ModA_Info"; "UseA"]%str.
 Proof. exact ex_symmetric. Qed.
 Print Assumptions C12_clash_example.
+
+(* --- constraint resolution over a module set (Fix/Pullup.v) ----------------------------- *)
+(* Model of asn1f_fix_module__phase_1/_2 + asn1constraint_resolve + constraint_type_resolve +
+   asn1constraint_pullup: own constraints are rewritten in place (value references by their values,
+   a contained subtype by the combined constraints of the named type, pulled up on the spot),
+   combined constraints are computed once per type and cached; phase 1 then phase 2 run over the
+   modules in command-line order.  Tied to asn1c by the `-- Combined constraints:` lines of
+   `asn1c -E -F -print-constraints` for generated 2-3 module sets under every file order. *)
+
+(* the memoising in-place algorithm, run over the modules in ANY order, computes the order-free
+   specification (references resolved, the parent's combined constraints first) *)
+Theorem C12_pullup_is_spec : forall w ms t,
+  wf_world w = true -> mods_ok w ms = true -> In t (flat_map snd ms) ->
+  combined w false ms t = spec w t.
+Proof. exact fixall_spec. Qed.
+Print Assumptions C12_pullup_is_spec.
+
+(* hence the combined constraints of every type do not depend on the order of the module list *)
+Theorem C12_pullup_order_independent : forall w ms ms' t,
+  wf_world w = true -> mods_ok w ms = true -> Permutation ms ms' -> In t (flat_map snd ms) ->
+  combined w false ms t = combined w false ms' t.
+Proof. exact combined_order_independent. Qed.
+Print Assumptions C12_pullup_order_independent.
+
+(* the variant "a type of another module is resolved by the pass over its own module, not from
+   pullup" caches an unresolved constraint when the including module comes first: order dependent *)
+Theorem C12_pullup_foreign_unresolved_refuted : exists w ms ms' t,
+  wf_world w = true /\ mods_ok w ms = true /\ Permutation ms ms' /\ In t (flat_map snd ms) /\
+  combined w true ms t <> combined w true ms' t.
+Proof. exact seeded_order_dependent. Qed.
+Print Assumptions C12_pullup_foreign_unresolved_refuted.
+
+(* non-vacuity: V ::= INTEGER (INCLUDES X), X ::= Y, Y ::= INTEGER (W), W ::= INTEGER (0..100) over three modules *)
+Theorem C12_pullup_example :
+  combined wdemo false [mA; mB; mC] 1 = Some [Lit 0%Z 100%Z] /\
+  combined wdemo false [mC; mB; mA] 1 = Some [Lit 0%Z 100%Z] /\
+  spec wdemo 1 = Some [Lit 0%Z 100%Z] /\
+  map (combined wdemo false [mA; mB; mC]) [0; 1; 2; 3] = map (spec wdemo) [0; 1; 2; 3] /\
+  map (combined wdemo false [mC; mB; mA]) [0; 1; 2; 3] = map (spec wdemo) [0; 1; 2; 3] /\
+  spec wdemo 3 = Some [Lit 0%Z 100%Z].
+Proof. exact pullup_example. Qed.
+Print Assumptions C12_pullup_example.
